@@ -127,6 +127,23 @@ def enumerated_history(chk, rng, plan, offset, hi):
                 if r is None or r.get("k") != "E":
                     chk.count("invalid step accepted (C15's business)")
                     return
+                pb = {k[len(tr["key"]) + 3:]: v for k, v in obs.items()
+                      if k.startswith(tr["key"] + ".pb")}
+                pa = {k[len(tr["key"]) + 3:]: v for k, v in obs.items()
+                      if k.startswith(tr["key"] + ".pa")}
+                changed = [i for i in pb if pb[i] != pa.get(i)]
+                chk.count("operations compared before/after a rejection",
+                          len(pb))
+                if changed:
+                    i = changed[0]
+                    chk.violation(
+                        "history %d: after the rejected step (%s) an "
+                        "operation gives another result: %s before, %s after"
+                        % (hi, tr["desc"], brief(pb[i]), brief(pa.get(i))),
+                        dict(history=hist_desc, steps=steps, at=tr["key"],
+                             before=pb[i], after=pa.get(i)),
+                        "result-changed|" + tr["cls"])
+                    return
                 if prev is not None:
                     problems = diff_snapshots(prev, snap, ev.new_syms,
                                               ev.new_type)
@@ -407,6 +424,7 @@ def run(chk, R, tier, seed):
     for c in FAULT_CLASSES:
         chk.require("rejected|" + c)
     chk.require("before/after snapshot pairs compared")
+    chk.require("operations compared before/after a rejection")
     for w_ in ("first", "middle", "last", "end"):
         chk.require("rejected at %s position" % w_)
     chk.require("symbol re-use after rejection")
